@@ -129,7 +129,9 @@ struct Series {
     tags: String,
 }
 impl Series {
-    fn f(&self) -> Vec<f64> { self.xs.iter().map(|x| x.unwrap_or(f64::NAN)).collect() }
+    // nulls of a float series are NaNs of BOTH signs (x86 produces the sign-bit-set NaN for 0.0 / 0.0): every other null
+    // carries the sign bit, so a comparison that is null-last only for the positive NaN (e.g. total_cmp) is visible
+    fn f(&self) -> Vec<f64> { self.xs.iter().enumerate().map(|(i, x)| x.unwrap_or(if i % 2 == 0 { f64::NAN } else { -f64::NAN })).collect() }
     fn o(&self) -> Vec<Option<f64>> { self.xs.clone() }
     fn integral(&self) -> bool { self.xs.iter().all(|x| x.map_or(true, |v| v.fract() == 0.0)) }
     fn nonull(&self) -> bool { self.xs.iter().all(|x| x.is_some()) }
